@@ -197,6 +197,17 @@ def contracts(m):
                                 "forall(lambda k: implies(k in self.methods, result.methods[k].is_internal == (self.methods[k].ident.proto not in public_methods) "
                                 "and result.methods[k].method_pb is self.methods[k].method_pb), str)",
                                 "result.service_pb is self.service_pb"]))
+    # the file level: every service of the file is kept, each with the marking of Service.with_internal_methods (read by contract); nothing else changes
+    cs.append(Contract("Proto.with_internal_methods", source=("gapic/schema/api.py", "Proto.with_internal_methods"),
+                       params={"self": "Proto", "public_methods": "Set[Str]"}, result="Proto",
+                       requires=["forall(lambda s: forall(lambda m: not m.is_internal, s.methods.values()), self.services.values())"],
+                       ensures=["forall(lambda k: (k in result.services) == (k in self.services), str)",
+                                "forall(lambda k: implies(k in self.services, result.services[k].service_pb is self.services[k].service_pb and "
+                                "forall(lambda q: (q in result.services[k].methods) == (q in self.services[k].methods), str) and "
+                                "forall(lambda q: implies(q in self.services[k].methods, result.services[k].methods[q].is_internal == "
+                                "(self.services[k].methods[q].ident.proto not in public_methods)), str)), str)",
+                                "result.all_messages is self.all_messages and result.all_enums is self.all_enums and result.file_to_generate == self.file_to_generate "
+                                "and result.meta is self.meta and result.file_pb2 is self.file_pb2"]))
     cs.append(Contract("make_private", source=("gapic/utils/code.py", "make_private"), params={"object_name": "Str"}, result="Str",
                        ensures=["result == (object_name if object_name.startswith('_') else '_' + object_name)"]))
     # ---- pruning --------------------------------------------------------------------------------------------------------------
